@@ -7,6 +7,8 @@ CLAIMS = {
          "host-table callees of Parse (findOrCreateHostWithLock, onlineTransition, echoNotify) enter through contracts; calls outside the repository are abstracted as total; known finding: Ether.Payload of a header-only frame exposes spare capacity"),
  "C02": ("field table: every getter of a valid view equals the RFC position (spec functions written from the RFCs); Parse's contract states PayloadID, offsets, addresses, ports and error-iff against the reference classifier spec_parse and is proved against the real body",
          "spec_parse / field table are the trusted reference; IPv6 trailing bytes are deliberately free (mayErr); Frame.Payload extent beyond the start offset not demanded"),
+ "C03": ("every encoder (Ethernet, IPv4, IPv6, UDP, ARP, ICMP echo) has a contract stating the wire layout of the bytes it writes, its exact modifies set (frame obligations per write) and the ErrPayloadTooBig clause; round-trip lemmas decode the encoder output through the library's getters and through the C02 field table; NS/NA marshal and DNS query round trips are lemmas over the real code",
+         "DHCPv4 option-map encoding (Go map iteration) is not decided; preconditions state that source slices do not overlap the destination buffer; composition with Parse: see evidence"),
  "C15": ("Checksum(b) == byte-swapped RFC 1071 checksum for every b up to 65535 bytes: loop invariant against a recursive little-endian word sum, byte-order independence by an inductive ghost-loop lemma over one's-complement addition lemmas (each discharged by bit-blasting)",
          "inputs longer than 65535 bytes excluded (uint32 accumulator); recursive spec functions assumed terminating; header/ICMP sums-to-zero lemmas: see evidence"),
  "C20": ("fastlog appenders: in-bounds under their stated room precondition, exact index arithmetic, rendered bytes for MAC / hex / bool / string fields equal the reference renderer; ByteArray, StringArray, IPArray proved panic-free and in-buffer for ANY value length; appendIP6 in-bounds for all addresses",
